@@ -423,8 +423,12 @@ func (r *Runner) cmd(ctx context.Context, cm syntax.Command) {
 		// A subshell in a condition, a negation or the left side of
 		// a list keeps ignoring errexit, like Bash does.
 		r2.noErrExit = r.noErrExit
+		// A return in a subshell inside a function or a sourced file
+		// ends the subshell only.
+		r2.inFunc, r2.inSource = r.inFunc, r.inSource
 		r2.stmts(ctx, cm.Stmts)
 		r2.exit.exiting = false // subshells don't exit the parent shell
+		r2.exit.returning = false
 		r.exit = r2.exit
 	case *syntax.CallExpr:
 		// Build new slices, to not modify the caller's AST
